@@ -112,7 +112,11 @@ class World:
             names += [self.last[1], self.last[1].upper()]
         qs = []
         for _ in range(rng.choice([1, 1, 2, 3, 4])):
-            qs.append("%s,%d,%d" % (hexs(rng.choice(names)), rng.choice([12, 12, 33, 16, 255, 1, 28]), rng.randrange(2)))
+            nm = rng.choice(names)
+            tokn = hexs(nm) or "."
+            if rng.random() < 0.08:
+                tokn = rng.choice([".", "-"])        # a question for the root name (empty), or with a null name
+            qs.append("%s,%d,%d" % (tokn, rng.choice([12, 12, 33, 16, 255, 1, 28]), rng.randrange(2)))
         known = []
         if self.last and rng.random() < 0.5:
             i = inst(self.last[0], self.last[1], self.sk)
